@@ -13,7 +13,7 @@ fn main() {
         std::process::exit(3);
     }
     let property = args[1].clone();
-    let mut ctx = Ctx { tier: Tier::Quick, seed: 1, threads: std::thread::available_parallelism().map(|n| n.get()).unwrap_or(4), scale: 1.0, replay: None, corpus: String::new(), opts: BTreeMap::new() };
+    let mut ctx = Ctx { tier: Tier::Quick, seed: 1, threads: std::thread::available_parallelism().map(|n| n.get()).unwrap_or(4), scale: 1.0, replay: None, corpus: String::new(), opts: BTreeMap::new(), budget_s: None };
     let mut out: Option<String> = None;
     let mut i = 2;
     while i < args.len() {
@@ -25,6 +25,7 @@ fn main() {
             "--threads" => ctx.threads = v.parse().unwrap_or(1),
             "--scale" => ctx.scale = v.parse().unwrap_or(1.0),
             "--corpus" => ctx.corpus = v.clone(),
+            "--budget" => ctx.budget_s = v.parse().ok(),
             "--out" => out = Some(v.clone()),
             "--replay" => {
                 let mut it = v.split(':');
